@@ -421,6 +421,14 @@ def sample_configs(ck: Check) -> list[dict]:
             for _ in range(1 if q else 3):
                 add({"kind": "ttp", "setup": setup, "instance": nm, "seed": seed(),
                      "budget": rng.choice([30, 60, 120, 300])})
+    # very short runs on larger instances: their best plans still contain byes (dropped games) inside long home/away
+    # runs - the situations in which the error count's rules interact (found missing by seeded change
+    # C12-bye-keeps-streak, which the long-budget runs on circ4/circ6 never reach)
+    ttp_mid = ["circ8", "circ10", "circ12", "circ14", "circ16"]
+    for setup in ("rls", "rs"):
+        for nm in (ttp_mid if not q else rng.sample(ttp_mid, 4)):
+            for _ in range(2 if q else 4):
+                add({"kind": "ttp", "setup": setup, "instance": nm, "seed": seed(), "budget": rng.choice([3, 5, 8, 16])})
     from moptipyapps.ttp.instance import Instance as PInst
     mo_small = [nm for nm in PInst.list_resources() if re.fullmatch(r"[a-z]+\d+", nm) and int(re.search(r"\d+", nm)[0]) <= (6 if q else 10)]
     for setup in ("rls", "mo_nsga2"):
